@@ -212,6 +212,9 @@ def shards(tier):
             if (name, unit.ref(r)) in full_raws:
                 continue  # enumerated with the full family below (a superset of the 144 patterns)
             items.append({"kind": "flip", "unit": name, "src": "corpus", "i": i, "fam": "quick", "lo": 0, "hi": 1 << 30, "tier": tier})
+    for name in SIZE_UNITS:
+        for part in range(4):
+            items.append({"kind": "sizes", "unit": name, "part": part, "parts": 4, "tier": tier})
     if tier == "thorough":
         heavy = []
         for j, (name, recipe) in enumerate(full_selection()):
@@ -923,9 +926,72 @@ def run_valid(rec, item):
 
 
 # ============================================================================== driver
+# ============================================================================== sizes
+# The CRC checks slice with the 16-bit length field.  Payload lengths are swept so that the field takes every low-octet
+# value under high octets 0..4 and every carry pattern around further multiples of 256: for each packet the valid clause,
+# and single-bit flips in the first octet, the last octet before the trailer and every trailer bit.
+SIZE_UNITS = ("PusTc", "PusTm", "FileDataPdu")
+
+
+def size_lengths(tier):
+    vals = set(range(0, 1101))
+    highs = list(range(5, 17)) + [31, 32, 63, 64, 127, 128, 254, 255] + ([] if tier == "quick" else list(range(17, 31)))
+    for h in highs:
+        vals.update(range(h * 256 - 40, h * 256 + 9))
+    return sorted(v for v in vals if v >= 0)
+
+
+def size_recipe(name, n, i):
+    from units.pus import hx, payload
+    if name == "PusTc":
+        return dict(svc=17, sub=1, apid=0x2AA, seq=0x1555, src=0x1234, ack=5, data=hx(payload(n, i)))
+    if name == "PusTm":
+        ts = payload((0, 7, 2)[i % 3], 3)
+        return dict(svc=5, sub=2, apid=0x155, seq=0x2AAA, mc=0x0102, dest=0x0304, tref=3, ver=0, ts=hx(ts), data=hx(payload(n, i)), ts_len=len(ts))
+    cfg = {"crc": 1, "large": i % 2, "idw": (1, 2, 8)[i % 3], "seqw": (1, 4, 8)[i % 3], "mode": 0, "segctrl": (i // 2) % 2}
+    return {"cfg": cfg, "params": {"offset": 0x0102, "data": ["shaped", n, i % 4], "md": None}}
+
+
+def size_one(rec, unit, recipe):
+    case = {"kind": "sizes", "unit": unit.name, "recipe": recipe}
+    rec.case(True, ops=2 * len(unit.decoders()) + 20)
+    try:
+        raw = bytes(unit.build(recipe).pack())
+    except Exception:
+        rec.count("size_sweep_not_constructible")
+        return  # whether this length can be built is the encoding properties' business
+    if raw != unit.ref(recipe):
+        rec.count("size_sweep_packed_differs_from_reference(judged by the encoding properties)")
+        return
+    f = judge_packet(unit, recipe, raw, unit.name + ".pack")
+    if f is not None:
+        rec.violation(f"C04.{f.clause}/{f.subject}/{f.kind.split('/')[0]}/long-packet", case, f.observed, f.expected,
+                      note="payload length sweep: the packet as packed by the library, uncorrupted")
+        return
+    n = 8 * len(raw)
+    excl = set(unit.length_bits(raw))
+    for off in (0, n - 17, n - 16, n - 9, n - 8, n - 1):  # first bit, last bit before the trailer, first/last bit of each trailer octet
+        if 0 <= off < n and off not in excl:
+            flip_one(rec, unit, recipe, off, 1, 1, crc=True)
+    rec.outcome(f"sizes/{unit.name}/ok")
+
+
+def run_sizes(rec, item):
+    unit = crc_units()[item["unit"]]
+    k = 0
+    for i, n in enumerate(size_lengths(item["tier"])):
+        if i % item["parts"] != item["part"]:
+            continue
+        size_one(rec, unit, size_recipe(item["unit"], n, i))
+        k += 1
+    rec.count("size_sweep_packets", k)
+
+
 def run_shard(item):
     rec = Rec(PROPERTY, item)
-    if item["kind"] == "flip":
+    if item["kind"] == "sizes":
+        run_sizes(rec, item)
+    elif item["kind"] == "flip":
         run_flip(rec, item)
     elif item["kind"] == "valid":
         run_valid(rec, item)
@@ -937,7 +1003,9 @@ def run_shard(item):
 def replay(case):
     rec = Rec(PROPERTY, "replay")
     unit = crc_units()[case["unit"]]
-    if case["kind"] == "flip":
+    if case["kind"] == "sizes":
+        size_one(rec, unit, case["recipe"])
+    elif case["kind"] == "flip":
         rec.case(True, ops=len(unit.decoders()) + 1)
         flip_one(rec, unit, case["recipe"], case["off"], case["L"], case["pat"], crc=True)
     elif case["kind"] == "valid":
